@@ -1,11 +1,11 @@
 #!/usr/bin/env python3
 """record_seeded.py <wave> <prop> <i> <pkgdir> [extra go test flags]: copies a verified seeded change from
-/tmp/out-<prop>/ into /verif/seeded/<prop>-w<wave>-m<i>/, runs the property's quick check against it
+/tmp/out-<prop>/ (wave 1) or /tmp/out<wave>-<prop>/ into /verif/seeded/<prop>-w<wave>-m<i>/, runs the property's quick check against it
 (applied to /repo and undone straight afterwards) and writes meta.json."""
 import json, os, shutil, subprocess, sys
 wave, prop, i, pkg = sys.argv[1:5]
 extra = " ".join(sys.argv[5:])
-src = "/tmp/out-%s" % prop
+src = "/tmp/out%s-%s" % ("" if wave == "1" else wave, prop)
 dst = "/verif/seeded/%s-w%s-m%s" % (prop, wave, i)
 os.makedirs(dst, exist_ok=True)
 shutil.copy("%s/mutant%s.diff" % (src, i), dst + "/patch.diff")
